@@ -5,6 +5,12 @@ import json
 BASELINE = "cd /repo && go test -mod=mod -json -vet=off -count=1 -timeout 25m ./..."
 
 CHECKS = {
+ "C09": dict(
+  engine="E3 product enumerator",
+  technique="exhaustive enumeration of all run-length tables up to N samples, every query argument, vs naive per-sample expansion",
+  text="Every run-length encoding of every table for N <= 7 (quick) / 9 (thorough) samples is serialised by an independent raw writer, decoded by the library, and every query is asked for every sample number, every interval 1<=a<=b<=N and every time 0..total+1; answers are compared with the naive per-sample expansion. Combined queries (GetSampleData, GetRangesForSampleInterval, CopySampleData) run on generated files for all chunkings of N <= 5/6 samples x 8 table variants x 1-2 tracks.",
+  note="Consistent tables only (as the statement says). Value alphabets are small ({1,2,3} durations/sizes, offsets {0,1,2,-1}); N is bounded. GetSampleNrAtTime reference follows the contract pinned by the repository's own unit test (N+1 strictly inside the last sample).",
+  design="3 C09"),
  "C13": dict(
   engine="E6 product-state closure + E3",
   technique="explicit-state BFS to a fixpoint over (implementation private state x reference automaton) product states; exhaustive bounded op-sequence enumeration",
